@@ -14,7 +14,7 @@ pub struct DataSpec {
     pub b: u16,
 }
 
-pub const KIND_NAMES: [&str; 10] = [
+pub const KIND_NAMES: [&str; 11] = [
     "data:constant",
     "data:runs",
     "data:markov",
@@ -25,6 +25,7 @@ pub const KIND_NAMES: [&str; 10] = [
     "data:concat",
     "data:words",
     "data:periodic",
+    "data:graded_copies",
 ];
 
 pub const BLOCK: u32 = 128 * 1024;
@@ -61,6 +62,7 @@ pub fn data_strategy(max: u32) -> impl Strategy<Value = DataSpec> {
         3 => Just(7u8),
         2 => Just(8u8),
         2 => Just(9u8),
+        2 => Just(10u8),
     ];
     (kind, len_strategy(max), any::<u32>(), any::<u16>(), any::<u16>()).prop_map(move |(kind, len, seed, a, b)| DataSpec {
         kind,
@@ -291,6 +293,52 @@ fn fill_kind(out: &mut Vec<u8>, kind: u8, n: usize, rng: &mut Rng, a: u16, b: u1
                 out.push(pat[i % period]);
             }
         }
+        10 => {
+            // per 128 KiB block (the built-in match finder's window): half a block of random bytes,
+            // then short fresh pieces each followed by a copy from a distance whose offset CODE
+            // cycles evenly over up to 14 codes, plus ONE copy with a code outside the cycle: a
+            // flat offset-code histogram with one rare code - the shape that drives the
+            // compressor's offset table to its accuracy-log limit (without the rare code its
+            // normalisation, which subtracts the smallest count, collapses the histogram to ones)
+            let start = out.len();
+            let alpha = 16 + (b as u64 % 113);
+            while out.len() - start < n {
+                let bstart = out.len();
+                let blen = (n - (bstart - start)).min(BLOCK as usize);
+                let prefix = blen / 2;
+                for _ in 0..prefix {
+                    out.push(rng.below(alpha) as u8);
+                }
+                let lo = 3 + (a as u64 % 2);
+                // codes whose whole distance range lies inside the random prefix
+                let reachable = (prefix.max(2) as u64).ilog2() as u64;
+                let k = (12 + (a as u64 / 4 % 3)).min(reachable.saturating_sub(lo)).max(1);
+                // The compressor scales a histogram by floor(max count / number of codes): the scaled
+                // sum is largest when every count lies between one and two times the number of
+                // codes - so each code of the cycle gets 18..33 copies, the rest of the block is random
+                let per = 18 + (b as u64 / 128 % 16);
+                let mut i = 0u64;
+                while out.len() - bstart < blen {
+                    if i > k * per {
+                        out.push(rng.below(alpha) as u8);
+                        continue;
+                    }
+                    for _ in 0..8 + rng.below(24) {
+                        out.push(rng.below(alpha) as u8);
+                    }
+                    let code = if i == 0 { lo - 1 } else { lo + (i - 1) % k };
+                    i += 1;
+                    let have = (out.len() - bstart) as u64;
+                    let dist = ((1u64 << code) - 3 + rng.below(1u64 << code)).clamp(1, have) as usize;
+                    let len = 6 + rng.below(11) as usize;
+                    for _ in 0..len {
+                        let byte = out[out.len() - dist];
+                        out.push(byte);
+                    }
+                }
+                out.truncate(bstart + blen);
+            }
+        }
         _ => {
             // concatenation of 2..4 parts of other kinds
             let parts = 2 + rng.below(3) as usize;
@@ -310,11 +358,11 @@ impl DataSpec {
     pub fn render(&self) -> Vec<u8> {
         let mut out = Vec::with_capacity(self.len as usize);
         let mut rng = Rng(self.seed as u64 | ((self.kind as u64) << 40));
-        fill_kind(&mut out, self.kind % 10, self.len as usize, &mut rng, self.a, self.b);
+        fill_kind(&mut out, self.kind % 11, self.len as usize, &mut rng, self.a, self.b);
         out.truncate(self.len as usize);
         out
     }
     pub fn kind_name(&self) -> &'static str {
-        KIND_NAMES[(self.kind % 10) as usize]
+        KIND_NAMES[(self.kind % 11) as usize]
     }
 }
